@@ -439,7 +439,7 @@ func nativeReplay(r Run, replayPath string, p *sym.Program) (bool, string) {
 `
 	sb.WriteString(body)
 	if r.Synctest {
-		sb.WriteString("\tsynctest.Run(run)\n")
+		sb.WriteString("\tvSynctest = true\n\tsynctest.Run(run)\n")
 	} else {
 		sb.WriteString("\trun()\n")
 	}
@@ -465,7 +465,10 @@ func nativeReplay(r Run, replayPath string, p *sym.Program) (bool, string) {
 	rep := false
 	switch doc.Kind {
 	case "assert":
-		rep = strings.Contains(s, "REPLAY-FAIL: "+doc.Msg)
+		// the failed assertion itself, or a genuine native crash on the same input
+		crash := (strings.Contains(s, "\npanic: ") || strings.Contains(s, "fatal error:") || strings.Contains(s, "REPLAY-PANIC")) &&
+			!strings.Contains(s, "all goroutines in bubble are blocked")
+		rep = strings.Contains(s, "REPLAY-FAIL: "+doc.Msg) || crash
 	case "deadlock":
 		rep = strings.Contains(s, "deadlock") || strings.Contains(s, "REPLAY-FAIL") || strings.Contains(s, "test timed out")
 	default:
